@@ -85,6 +85,100 @@ def _worker_task(task):
     return r
 
 
+def _worker_loop(conn, modname, tier, stub_modules, z3_seed):
+    from . import loadscale
+
+    try:
+        if z3_seed:
+            import z3
+
+            z3.set_param('smt.random_seed', int(z3_seed))
+            z3.set_param('sat.random_seed', int(z3_seed))
+        _worker_init(modname, tier, stub_modules)
+        loadscale.start_watchdog()
+        while True:
+            task = conn.recv()
+            if task is None:
+                break
+            conn.send(_worker_task(task))
+    except (EOFError, KeyboardInterrupt):
+        pass
+    finally:
+        conn.close()
+
+
+def _run_pool(tasks, procs, modname, tier, stub_modules):
+    """persistent forked workers, one task at a time each.  Unlike multiprocessing.Pool this survives the death of a
+    worker (the solver watchdog of symx/loadscale.py exits a worker whose z3 call ignores its timeout): the task is
+    re-run once in a fresh worker with another z3 seed, then reported as a harness error (check inconclusive)."""
+    from multiprocessing.connection import wait as mp_wait
+
+    ctxm = mp.get_context('fork')
+    pending = [(t, 0) for t in tasks]
+    results = []
+    workers = {}  # conn -> [process, current (task, attempt) or None]
+
+    def spawn(seed=0):
+        a, b = ctxm.Pipe(duplex=True)
+        p = ctxm.Process(target=_worker_loop, args=(b, modname, tier, stub_modules, seed), daemon=True)
+        p.start()
+        b.close()
+        workers[a] = [p, None]
+        return a
+
+    def feed(conn):
+        if pending:
+            job = pending.pop(0)
+            workers[conn][1] = job
+            conn.send(job[0])
+            return True
+        return False
+
+    for _ in range(min(procs, len(pending))):
+        feed(spawn())
+    while any(w[1] is not None for w in workers.values()):
+        busy = [c for c, w in workers.items() if w[1] is not None]
+        for conn in mp_wait(busy, timeout=5.0):
+            proc, job = workers[conn]
+            try:
+                r = conn.recv()
+            except (EOFError, ConnectionResetError, OSError):
+                r = None
+            if r is not None:
+                results.append(r)
+                workers[conn][1] = None
+                feed(conn)
+                continue
+            # the worker died while running `job`
+            proc.join(timeout=5)
+            code = proc.exitcode
+            del workers[conn]
+            try:
+                conn.close()
+            except Exception:
+                pass
+            task, attempt = job
+            if attempt < 1:
+                print(f'symx: worker running {task[0]}[{task[1]}] exited with code {code}; re-running it once with another solver seed', flush=True)
+                pending.insert(0, (task, attempt + 1))
+                feed(spawn(seed=12345 + attempt))
+            else:
+                results.append({'name': task[0], 'which': task[1], 'stubs': [], 'harness_error': f'worker died twice (exit code {code}) while running this obligation: a solver call ignored its timeout (watchdog) or the worker crashed', 'tb': ''})
+                if pending:
+                    feed(spawn())
+    for conn, (proc, _job) in list(workers.items()):
+        try:
+            conn.send(None)
+            conn.close()
+        except Exception:
+            pass
+    for conn, (proc, _job) in list(workers.items()):
+        proc.join(timeout=10)
+        if proc.is_alive():
+            proc.terminate()
+    return results
+
+
 def load_known_findings(pid):
     p = os.path.join(VERIF, 'known_findings.json')
     if not os.path.exists(p):
@@ -179,10 +273,7 @@ def run_check(pid, tier, modname, stub_modules, level_text, assumptions, bounds,
         for t in tasks:
             results.append(_worker_task(t))
     else:
-        ctxm = mp.get_context('fork')
-        with ctxm.Pool(procs, initializer=_worker_init, initargs=(modname, tier, stub_modules), maxtasksperchild=None) as pool:
-            for r in pool.imap_unordered(_worker_task, tasks, chunksize=1):
-                results.append(r)
+        results = _run_pool(tasks, procs, modname, tier, stub_modules)
 
     # ---------------- phase C: triage + replay ----------------------------------------------
     cc = {'cc_total': 0, 'cc_agree': 0, 'cc_error': 0, 'cc_s': 0.0}
